@@ -7,7 +7,7 @@ open Conv
 open RibModel
 
 let run_case (line : string) : string =
-  let items = Stdlib.List.map words (split_on ';' line) in
+  let items = Stdlib.List.rev (Stdlib.List.rev_map words (split_on ';' line)) in
   let nthreads = Stdlib.List.fold_left (fun acc it -> match it with
       | "p" :: t :: _ -> max acc (int_of_string t + 1) | _ -> acc) 1 items in
   let progs = Array.make nthreads [] in
@@ -19,7 +19,8 @@ let run_case (line : string) : string =
           let t = int_of_string t in progs.(t) <- u :: progs.(t)
       | ["q"; _; p] -> pfxs := int_of_string p :: !pfxs
       | _ -> ()) items;
-  let all = Stdlib.List.concat (Array.to_list (Array.map Stdlib.List.rev progs)) in
+  (* progs.(t) is reversed; build thread 0's updates first, tail-recursively *)
+  let all = Array.fold_right (fun p acc -> Stdlib.List.rev_append p acc) progs [] in
   let r = rib_run all in
   let ps = Stdlib.List.sort_uniq compare !pfxs in
   let out = ref ["F"] in
